@@ -1,6 +1,7 @@
 package v2
 
 import (
+	"errors"
 	"net/http"
 	"net/url"
 
@@ -12,6 +13,7 @@ import (
 
 	"github.com/formancehq/ledger/internal/api/common"
 	storagecommon "github.com/formancehq/ledger/internal/storage/common"
+	ledgerstore "github.com/formancehq/ledger/internal/storage/ledger"
 )
 
 func readAccount(w http.ResponseWriter, r *http.Request) {
@@ -38,6 +40,8 @@ func readAccount(w http.ResponseWriter, r *http.Request) {
 		switch {
 		case postgres.IsNotFoundError(err):
 			api.NotFound(w, err)
+		case errors.Is(err, storagecommon.ErrInvalidQuery{}) || errors.Is(err, ledgerstore.ErrMissingFeature{}):
+			api.BadRequest(w, common.ErrValidation, err)
 		default:
 			common.HandleCommonErrors(w, r, err)
 		}
